@@ -126,6 +126,42 @@ def _drawtree(built, case, max_leaves):
     return {"leaves": leaves, "truncated": truncated}
 
 
+def _output(built, case, op):
+    """run the output conversions and tabulations on synthesized and on given experiments"""
+    import ir
+    import sweetpea as sp
+    b = built.block
+    F = case["factors"]
+    objs = built.factors
+    if op.get("rows_list") is not None:
+        exps = [ir.decode_sequence(case, rows) for rows in op["rows_list"]]
+    else:
+        with ir.quiet():
+            exps = sp.synthesize_trials(b, op.get("n", 2), _strategy(op.get("strategy", "IterateSATGen")))
+    ids = ir.design_ids(case["block"])
+    order = [F[k - 1]["name"] for k in ids]
+    out = {"order": order, "exps": [{k: list(v) for k, v in e.items()} for e in exps],
+           "exposed": [str(k) for e in exps for k in e.keys() if not isinstance(k, str) or k not in order]}
+    with ir.quiet():
+        out["tuples"] = [[list(t) for t in e] for e in sp.experiments_to_tuples(b, exps)]
+        out["dicts"] = sp.experiments_to_dicts(b, exps)
+        with tempfile.TemporaryDirectory() as d:
+            sp.save_experiments_csv(b, exps, os.path.join(d, "x"))
+            out["csv"] = [list(open(os.path.join(d, "x_%d.csv" % k), "rb").read()) for k in range(len(exps))
+                          if os.path.exists(os.path.join(d, "x_%d.csv" % k))]
+    tabs = []
+    for tb in op.get("tabs", []):
+        facs = [objs[k - 1] for k in tb["factors"]] if tb.get("factors") else None
+        with ir.quiet() as buf:
+            if facs is None:
+                sp.tabulate_experiments(b, exps, trials=tb.get("trials"))
+            else:
+                sp.tabulate_experiments(None, exps, factors=facs, trials=tb.get("trials"))
+        tabs.append({"factors": tb.get("factors"), "trials": tb.get("trials"), "stdout": list(buf.getvalue().encode())})
+    out["tabs"] = tabs
+    return out
+
+
 def _varmap(built, case, ncand, seed):
     """record the variable table of the block and decode randomly chosen one-hot assignments"""
     import random as _r
@@ -266,6 +302,10 @@ def exec_ops(case, ops, op_timeout=60, emit=None):
                     signal.alarm(0)
                     rec["status"] = "returned"
                     rec["mismatch"] = {k: [str(x) for x in v] for k, v in r.items()}
+                elif kind == "output":
+                    rec.update(_output(built, case, op))
+                    signal.alarm(0)
+                    rec["status"] = "returned"
                 elif kind == "varmap":
                     rec.update(_varmap(built, case, op.get("ncand", 6), op.get("seed", 0)))
                     signal.alarm(0)
